@@ -2,7 +2,7 @@
    The statements are about [uprim] / [uany_scalar] (Unmarshal.v), the model
    of the primitive unmarshal machine, for every integer kind. *)
 From Coq Require Import List ZArith Bool Lia.
-Require Import Tok GoVal FloatConv Unmarshal.
+Require Import Tok GoVal JsonFloat FloatConv Unmarshal FloatProof.
 Import ListNotations.
 Open Scope Z_scope.
 
@@ -52,3 +52,16 @@ Proof. reflexivity. Qed.
 Example C09_max_uint64_untyped :
   uany_scalar (Uint 18446744073709551615) = Some (VAny (Some (GNum U64, VNum 18446744073709551615))).
 Proof. reflexivity. Qed.
+
+(* integers into float targets and float64 into float32 targets are the correctly rounded IEEE-754 values
+   (FloatProof.v): the only changes a number undergoes are the roundings the target kind implies *)
+Theorem C09_int_into_float64_correctly_rounded : forall z, Z.abs z < 2 ^ 64 ->
+  exists b0, int_to_f64 z = (if z <? 0 then b0 + SIGN64 else b0) /\ 0 <= b0 < INF64 /\
+             (z = 0 -> b0 = 0) /\ (z <> 0 -> is_rne64 (Z.abs z) 1 b0).
+Proof. exact int_to_f64_correct_64. Qed.
+Theorem C09_float32_target_idempotent : forall b, 0 <= b < 2 ^ 64 -> round32 (round32 b) = round32 b.
+Proof. exact round32_idempotent. Qed.
+Theorem C09_float32_values_unchanged : forall x, 0 <= x < 2 ^ 32 ->
+  round32 (CborDec.single_to_double x) = CborDec.single_to_double x.
+Proof. exact round32_single_to_double. Qed.
+Print Assumptions C09_int_into_float64_correctly_rounded.
